@@ -91,6 +91,8 @@ def run(ctx, res):
     used_aud = set()
     uspec = c07.load_units_spec(ctx)
     total = 0
+    ctx._c01_obs = []
+    ctx._c01_bodies = []
     for b in bodies + cli_bodies(ctx):
         is_cli = b in getattr(ctx, "_cli_b", [])
         fn = ("cli::" if is_cli else "") + fshort(b)
@@ -126,7 +128,13 @@ def run(ctx, res):
             res.cannot("C01.walk", fn, "walk", "obligation walk failed: %r" % (e,), T.loc(b["tree"]))
             continue
         un = None
+        bsp = b["tree"].get("sp")
+        if bsp:
+            ctx._c01_bodies.append((bsp[0], bsp[1], bsp[2], bsp[3], bsp[4]))
         for o in obs:
+            osp = o["node"].get("sp")
+            if osp:
+                ctx._c01_obs.append((osp[0], osp[1], osp[2], osp[3], osp[4]))
             total += 1
             site = norm_site(o)
             cls = None
